@@ -791,6 +791,12 @@ func liqDrive(t *testing.T, mode string) {
 					x := ref.MulInt(y).TruncateInt()
 					w.opCreatePool(app, 90, p.Id, x, y)
 				}
+				if c06 && g.chance(70) {
+					// C06: exactly balanced offers to MsgCreateRangedPool (c06_balanced_test.go)
+					for k := 1 + g.intn(2); k > 0; k-- {
+						w.c06BalancedRanged(g, app, p, ref)
+					}
+				}
 				if c04 && g.chance(35) {
 					y := sdk.NewInt(int64(1000000 + g.intn(5000000)))
 					x := ref.MulInt(y).TruncateInt()
